@@ -949,7 +949,7 @@ func runHistory(t *testing.T, h *History) (lines []string) {
 	for _, d := range ds {
 		// an HTTP-date is always in GMT (RFC 9110 §5.6.7): what http.ParseTime makes of another zone abbreviation
 		// in the obsolete rfc850 layout depends on the zone of the process and is not a date at all
-		if tm, err := http.ParseTime(d); err == nil && isGMTDate(tm) {
+		if tm, err := http.ParseTime(d); err == nil && isGMTDate(d) {
 			rs.emit("I\tDATE\t%s\t%d", hx(d), tm.Unix())
 		} else {
 			rs.emit("I\tDATE\t%s\tx", hx(d))
@@ -959,9 +959,15 @@ func runHistory(t *testing.T, h *History) (lines []string) {
 	return rs.lines
 }
 
-func isGMTDate(t time.Time) bool {
-	name, off := t.Zone()
-	return off == 0 && (name == "GMT" || name == "UTC")
+// isGMTDate: by the TEXT of the value, not by what the time library reports for the parsed instant (which, for the
+// rfc850 layout, depends on the abbreviation table of the process's zone): the IMF-fixdate and rfc850 forms end in
+// "GMT", the asctime form ends in the year and has no zone at all
+func isGMTDate(d string) bool {
+	d = strings.TrimSpace(d)
+	if strings.HasSuffix(d, "GMT") {
+		return true
+	}
+	return len(d) > 0 && d[len(d)-1] >= '0' && d[len(d)-1] <= '9' && !strings.ContainsAny(d, "+,")
 }
 
 func hdrToHTTP(h Hdr) http.Header {
